@@ -47,6 +47,24 @@ import TaRs.Lemmas.CommodityChannelIndex
 import TaRs.Lemmas.BollingerBands
 import TaRs.Lemmas.ChandelierExit
 import TaRs.Lemmas.KeltnerChannel
+import TaRs.Lemmas.Reset.SlowStochastic
+import TaRs.Lemmas.Reset.RateOfChange
+import TaRs.Lemmas.Reset.StandardDeviation
+import TaRs.Lemmas.Reset.EfficiencyRatio
+import TaRs.Lemmas.Reset.ChandelierExit
+import TaRs.Lemmas.Reset.CommodityChannelIndex
+import TaRs.Lemmas.Reset.BollingerBands
+import TaRs.Lemmas.Reset.AverageTrueRange
+import TaRs.Lemmas.Misc.AverageTrueRange
+import TaRs.Lemmas.Reset.Maximum
+import TaRs.Lemmas.Reset.WeightedMovingAverage
+import TaRs.Lemmas.Reset.SimpleMovingAverage
+import TaRs.Lemmas.Reset.MoneyFlowIndex
+import TaRs.Lemmas.Reset.FastStochastic
+import TaRs.Lemmas.Reset.KeltnerChannel
+import TaRs.Lemmas.Reset.Minimum
+import TaRs.Lemmas.Reset.MeanAbsoluteDeviation
+import TaRs.Lemmas.Reset.TrueRange
 
 namespace TaRs.Props.C18
 open TaRs TaRs.Gen TaRs.Rs TaRs.Codec
